@@ -355,7 +355,7 @@ pub fn run(a: &Args, m: &mut Mon) {
             }
         }
     }
-    let n = a.n(200_000, 12_000_000);
+    let n = a.n(400_000, 20_000_000);
     for k in 0..n {
         let nf = match r.below(10) {
             0 => 1,
